@@ -75,6 +75,8 @@ type File struct {
 	Meta     []ref.MetaEntry
 	// Big files are read intact and at block boundaries only (no per-byte cut / per-bit damage sweep of the payload)
 	Big bool
+	// Long files have thousands of blocks: intact reads and a few hundred spread cut / damage points only
+	Long bool
 }
 
 var famSync = [16]byte{0xde, 0xad, 0xbe, 0xef, 0x10, 0x32, 0x54, 0x76, 0x98, 0xba, 0xdc, 0xfe, 0x01, 0x23, 0x45, 0x67}
@@ -183,6 +185,26 @@ func Family(maxRecs int) []File {
 			f := Build(sc, codec, []int{3, 90, 3}, recs)
 			f.Name += "/large-wire-block"
 			f.Big = true
+			fs = append(fs, f)
+		}
+	}
+	// thousands of blocks of changing size in one file (whatever the reader re-uses, grows, shrinks or counts
+	// from block to block)
+	{
+		sc := Schemas()[2]
+		var recs []ref.Datum
+		var comp []int
+		for i := 0; i < 2400; i++ {
+			n := 1 + (i*7)%3
+			comp = append(comp, n)
+			for j := 0; j < n; j++ {
+				recs = append(recs, ref.DRecord(ref.DString(fmt.Sprintf("rec-%d-%d-%s", i, j, strings.Repeat("v", (i*13+j*5)%90))), ref.DBytes(strings.Repeat("\x01", (i*3)%40))))
+			}
+		}
+		for _, codec := range []string{"null", "deflate", "snappy"} {
+			f := Build(sc, codec, comp, recs)
+			f.Name = fmt.Sprintf("%s/%s/2400-blocks", sc.Name, codec)
+			f.Big, f.Long = true, true
 			fs = append(fs, f)
 		}
 	}
